@@ -1,6 +1,7 @@
 """C08 — incremental hash / MAC / signing equals the one-shot result for any chunking (DESIGN.md §7 C08)."""
 import random
 from common import *
+import refs
 try:
     import signfam
 except ImportError:
@@ -53,6 +54,26 @@ def gen(rng, tier):
                 if rng.random() < 0.5:
                     pieces.insert(rng.randrange(len(pieces) + 1), b"")
                 cs.append(Case(line(rng, op, keylen, pre, pieces), cls="%s/k-way" % op))
+    # Poly1305 call boundaries right after a block that leaves a limb on a carry corner (e.g. the middle limb exactly 2^44,
+    # carry still pending): crafted messages split at every block boundary, and degenerate keys (r = 1, 2^k, clamped maximum) on 0xff runs
+    for op in ("poly1305_inc", "poly1305_obj"):
+        for i in range(40 if tier == "quick" else 600):
+            key = bytearray(rbytes(rng, 32))
+            r = int.from_bytes(key[:16], "little") & refs.CLAMP
+            if r == 0:
+                continue
+            nb = rng.randrange(2, 7)
+            msg = refs.poly_corner_stream(rng, r, nb) + rbytes(rng, rng.choice([0, 1, 16, 17]))
+            for cut in range(16, 16 * nb + 1, 16):
+                cs.append(Case("%s %s %s %s" % (op, hx(bytes(key)), hx(msg[:cut]), hx(msg[cut:])), cls="%s/limb-corner-boundary" % op))
+            cuts = sorted(rng.sample(range(0, len(msg) + 1), 2))
+            cs.append(Case("%s %s %s %s %s" % (op, hx(bytes(key)), hx(msg[:cuts[0]]), hx(msg[cuts[0]:cuts[1]]), hx(msg[cuts[1]:])), cls="%s/limb-corner-3way" % op))
+        for rk in [1, 2, 4, 1 << 32, 1 << 44, 1 << 88, 0x0ffffffc0ffffffc0ffffffc0fffffff, 0x0ffffffc0ffffffc0ffffffc0ffffffe, 3, 5]:
+            key = (rk & refs.CLAMP).to_bytes(16, "little") + rbytes(rng, 16)
+            for fill in (b"\xff", b"\x00", b"\xfe"):
+                msg = fill * 93
+                for cut in (list(range(0, 94)) if tier == "thorough" or rk == 1 else [0, 16, 32, 33, 47, 48, 49, 63, 64, 80, 93]):
+                    cs.append(Case("%s %s %s %s" % (op, hx(key), hx(msg[:cut]), hx(msg[cut:])), cls="%s/degenerate-key" % op))
     if signfam:
         cs += signfam.c08_cases(rng, tier)
     return cs
